@@ -32,6 +32,7 @@ const LUA_KEYWORDS: [&str; 21] = [
 const THREADS: usize = 16;
 type Item = (Src, std::sync::Arc<Vec<Cfg>>);
 static TEXT_PATH_OK: std::sync::OnceLock<bool> = std::sync::OnceLock::new();
+static ROBLOX_COPY_OK: std::sync::OnceLock<bool> = std::sync::OnceLock::new();
 
 // ------------------------------------------------------------------------------------------
 // configuration of the rule
@@ -55,6 +56,35 @@ const DEFAULT_GLOBALS: [&str; 40] = [
     "pcall", "print", "rawequal", "rawget", "rawset", "require", "select", "setfenv", "setmetatable", "string", "table",
     "tonumber", "tostring", "type", "unpack", "xpcall", "_G", "_VERSION",
 ];
+
+/// copy of src/rules/rename_variables/globals.rs ROBLOX (the `$roblox` group); verified at run
+/// time by `roblox_globals_copy_is_current` (the group token is not generated if it is stale)
+const ROBLOX_GLOBALS: [&str; 58] = [
+    "Axes", "bit32", "BrickColor", "CatalogSearchParams", "CellId", "ColorSequence", "ColorSequenceKeypoint", "Color3",
+    "CFrame", "DateTime", "DebuggerManager", "delay", "DockWidgetPluginGuiInfo", "elapsedTime", "Enum", "Faces", "Instance",
+    "LoadLibrary", "game", "NumberRange", "NumberSequence", "NumberSequenceKeypoint", "OverlapParams", "PathWaypoint",
+    "PhysicalProperties", "plugin", "PluginDrag", "PluginManager", "printidentity", "Random", "Ray", "RaycastParams", "Rect",
+    "Region3", "Region3int16", "script", "settings", "shared", "stats", "spawn", "task", "tick", "time", "TweenInfo", "typeof",
+    "UDim", "UDim2", "UserSettings", "utf8", "Vector2", "Vector2int16", "Vector3", "Vector3int16", "version", "wait", "warn",
+    "workspace", "ypcall",
+];
+
+const GROUP_DEFAULT: &str = "$default";
+const GROUP_ROBLOX: &str = "$roblox";
+
+fn is_group_token(name: &str) -> bool {
+    name == GROUP_DEFAULT || name == GROUP_ROBLOX
+}
+
+/// `RenameVariables::new(copy)` serialises as `globals: ["$roblox"]` exactly when the copy equals
+/// the crate's ROBLOX list as a set (normalize_globals folds a complete group into its token).
+fn roblox_globals_copy_is_current() -> bool {
+    let globals_of = |names: &[&str]| -> Value {
+        let rule: Box<dyn Rule> = Box::new(RenameVariables::new(names.iter().map(|s| (*s).to_owned())));
+        serde_json::to_value(&rule).ok().and_then(|v| v.get("globals").cloned()).unwrap_or(Value::Null)
+    };
+    globals_of(&ROBLOX_GLOBALS) == json!([GROUP_ROBLOX]) && globals_of(&ROBLOX_GLOBALS[1..]) != json!([GROUP_ROBLOX])
+}
 
 /// `RenameVariables::new(copy)` serialises without a `globals` property exactly when the copy
 /// equals the crate's DEFAULT list as a set (normalize_globals folds it into `$default`).
@@ -80,8 +110,19 @@ impl Cfg {
         if self.via_text {
             list.extend(DEFAULT_GLOBALS.iter().map(|s| (*s).to_owned()));
         }
-        list.extend(self.globals.iter().cloned());
+        // configuration text may list the group tokens anywhere among the names: the documented
+        // meaning is the union of the groups and of every plain name, whatever the positions
+        for g in &self.globals {
+            match g.as_str() {
+                GROUP_DEFAULT if self.via_text => list.extend(DEFAULT_GLOBALS.iter().map(|s| (*s).to_owned())),
+                GROUP_ROBLOX if self.via_text => list.extend(ROBLOX_GLOBALS.iter().map(|s| (*s).to_owned())),
+                _ => list.push(g.clone()),
+            }
+        }
         list
+    }
+    fn plain_globals(&self) -> Vec<String> {
+        self.globals.iter().filter(|g| !is_group_token(g)).cloned().collect()
     }
     fn from_json(v: &Value) -> Cfg {
         Cfg {
@@ -1472,9 +1513,37 @@ fn prepare(src: &Src, cfgs: &[Cfg], family: &str, st: &mut Stats, reparse: bool,
         let mut cfg = cfg.clone();
         if text_path && !cfg.via_text && (hash_of(&events_in).wrapping_add(i as u64)) % 3 == 0 {
             cfg.via_text = true;
+            // three quarters of the text configurations carry `$default` / `$roblox` at
+            // arbitrary positions among the names (before, between, after)
+            let h = hash_of(&(&events_in, i, "group tokens"));
+            let mut insert = |token: &str, salt: u64| {
+                let at = (h.rotate_left(salt as u32) % (cfg.globals.len() as u64 + 1)) as usize;
+                cfg.globals.insert(at, token.to_owned());
+            };
+            let roblox_ok = *ROBLOX_COPY_OK.get_or_init(roblox_globals_copy_is_current);
+            match h % 4 {
+                1 => insert(GROUP_DEFAULT, 7),
+                2 if roblox_ok => insert(GROUP_ROBLOX, 13),
+                3 => {
+                    insert(GROUP_DEFAULT, 7);
+                    if roblox_ok {
+                        insert(GROUP_ROBLOX, 13);
+                    }
+                }
+                _ => {}
+            }
         }
         let cfg = &cfg;
-        st.hist("rule_built_from", if cfg.via_text { "json5 config text ($default + list)" } else { "RenameVariables::new(list)" });
+        st.hist(
+            "rule_built_from",
+            if !cfg.via_text {
+                "RenameVariables::new(list)"
+            } else if cfg.globals.iter().any(|g| is_group_token(g)) {
+                "json5 config text ($default + list with $default/$roblox tokens interleaved)"
+            } else {
+                "json5 config text ($default + list)"
+            },
+        );
         let is_claimed = claimed(&facts, cfg);
         let events_out = apply_rule(&mut block_out, cfg).and_then(|_| record_events(&mut block_out));
         let mut outcome = None;
@@ -1657,6 +1726,7 @@ fn correspondence_break(
     let mut cfgs = vec![cfg.clone()];
     for incl in [false, true] {
         for globals in [Vec::new(), cfg.globals.clone(), strs(&["a", "b", "c", "print"])] {
+            let globals = globals.into_iter().filter(|g| !is_group_token(g)).collect();
             cfgs.push(Cfg { incl, detect: true, globals, via_text: false });
         }
     }
@@ -3047,7 +3117,7 @@ fn replay_corpus(report: &mut Report) {
 // ------------------------------------------------------------------------------------------
 
 pub fn run(report: &mut Report, replay: Option<&str>) {
-    report.rule = "programs: (i) exhaustive enumerations E1..E6 of small programs over the names x, a, self (a collides with the first generated name), E7 directed: source names equal to generated names (`_`, a, b, z, A, Z, aa, ab, a_, aZ; thorough adds ba, zz, _a, __, Za, a0) inside N live locals with N swept across the name's ordinal in the generated sequence, and for-in loops shadowing their own iterator expressions, E8: every scope-opening construct (do/while/repeat-until reading body locals/numeric+generic for/if-else-elseif/local function/function statement/method/function expression as value, field, argument; repeated parameters and loop variables) x bodies declaring a, b once / twice in one scope / as kept local functions x a live local and global uses after the scope closes, under ALL 12 configurations crossed with include_functions × detect_globals × 3 globals lists, (ii) seeded random structured programs to nesting depth 6 with shadowing/capture/reuse patterns and Luau annotations in safe positions, (iii) stress (>64, >4000 live locals, one name declared 262k times in one scope) and keyword-like identifiers. One evaluation = one (program, configuration) through: real rule, event-stream correspondence with the Lean model, CollectGlobals and resolver correspondence, independent binding-graph oracle. Non-trivial = at least one declaration renamed AND at least one shadowing, upvalue capture or reuse of a generated name after scope exit; keyed by (input event stream, configuration).".to_owned();
+    report.rule = "programs: (i) exhaustive enumerations E1..E6 of small programs over the names x, a, self (a collides with the first generated name), E7 directed: source names equal to generated names (`_`, a, b, z, A, Z, aa, ab, a_, aZ; thorough adds ba, zz, _a, __, Za, a0) inside N live locals with N swept across the name's ordinal in the generated sequence, and for-in loops shadowing their own iterator expressions, E8: every scope-opening construct (do/while/repeat-until reading body locals/numeric+generic for/if-else-elseif/local function/function statement/method/function expression as value, field, argument; repeated parameters and loop variables) x bodies declaring a, b once / twice in one scope / as kept local functions x a live local and global uses after the scope closes, under ALL 12 configurations crossed with include_functions × detect_globals × 3 globals lists (a third of the cases through json5 configuration text, three quarters of those with the group tokens `$default` / `$roblox` interleaved at arbitrary positions among the names; the oracle and the model receive the documented expansion), (ii) seeded random structured programs to nesting depth 6 with shadowing/capture/reuse patterns and Luau annotations in safe positions, (iii) stress (>64, >4000 live locals, one name declared 262k times in one scope) and keyword-like identifiers. One evaluation = one (program, configuration) through: real rule, event-stream correspondence with the Lean model, CollectGlobals and resolver correspondence, independent binding-graph oracle. Non-trivial = at least one declaration renamed AND at least one shadowing, upvalue capture or reuse of a generated name after scope exit; keyed by (input event stream, configuration).".to_owned();
 
     if let Some(path) = replay {
         let text = std::fs::read_to_string(path).unwrap_or_default();
@@ -3060,6 +3130,9 @@ pub fn run(report: &mut Report, replay: Option<&str>) {
 
     let thorough = report.is_thorough();
     let started = Instant::now();
+    if !*ROBLOX_COPY_OK.get_or_init(roblox_globals_copy_is_current) {
+        report.notes.push("the harness copy of rename_variables::globals::ROBLOX is stale: the `$roblox` group token is not generated".to_owned());
+    }
     if !*TEXT_PATH_OK.get_or_init(default_globals_copy_is_current) {
         report.notes.push("the harness copy of rename_variables::globals::DEFAULT is stale: the json5 configuration path is not exercised".to_owned());
     }
